@@ -271,6 +271,17 @@ func Returns(fn *ssa.Function) []*ssa.Return {
 // obligation keys and diagnostics. Field chains render as access paths.
 func Expr(v ssa.Value) string { return expr(v, 0) }
 
+// KExpr renders like Expr but without names a behaviour-preserving rename
+// could change: parameters as $i, free variables as $free, local variables
+// as local. Used for obligation keys (and thereby known-findings keys).
+func KExpr(v ssa.Value) string {
+	keyMode = true
+	defer func() { keyMode = false }()
+	return expr(v, 0)
+}
+
+var keyMode bool
+
 func expr(v ssa.Value, d int) string {
 	if v == nil {
 		return "<nil>"
@@ -285,8 +296,18 @@ func expr(v ssa.Value, d int) string {
 		}
 		return x.Value.ExactString()
 	case *ssa.Parameter:
+		if keyMode && x.Parent() != nil {
+			for i, pa := range x.Parent().Params {
+				if pa == x {
+					return fmt.Sprintf("$%d", i)
+				}
+			}
+		}
 		return x.Name()
 	case *ssa.FreeVar:
+		if keyMode {
+			return "$free"
+		}
 		return x.Name()
 	case *ssa.Global:
 		return x.Name()
@@ -370,6 +391,13 @@ func expr(v ssa.Value, d int) string {
 		return "φ(" + strings.Join(as, ", ") + ")"
 	case *ssa.Alloc:
 		if x.Comment != "" {
+			if keyMode {
+				switch x.Comment {
+				case "complit", "varargs", "slicelit", "makeslice", "new":
+				default:
+					return "&local"
+				}
+			}
 			return "&" + x.Comment
 		}
 		return "alloc"
